@@ -632,12 +632,16 @@ func (ex *Exec) reportViolationK(id, msg string, m Model, known string) {
 		}
 	}
 	h := ex.h
+	sched := ex.lastSchedule
 	if ex.threads != nil && len(ex.threads.schedule) > 0 {
-		msg += " schedule: " + strings.Join(ex.threads.schedule, " ")
+		sched = strings.Join(ex.threads.schedule, " ")
+	}
+	if sched != "" {
+		msg += " schedule: " + sched
 	}
 	wit := ex.witness(m)
-	if ex.threads != nil && len(ex.threads.schedule) > 0 {
-		wit = append(wit, WitnessVal{Kind: "schedule", Val: strings.Join(ex.threads.schedule, " ")})
+	if sched != "" {
+		wit = append(wit, WitnessVal{Kind: "schedule", Val: sched})
 	}
 	v := Violation{Harness: h.decl.Name, Assert: id, Msg: msg, Witness: wit, Obs: ex.obsStrings(m), Known: known}
 	h.mu.Lock()
